@@ -60,9 +60,27 @@ def run_merge(probes, fill=0):
     from phylib.io.merge import Merger
     res = {'exception': None}
     with core.Scratch() as d:
+        # a warm-up merge of two other probes in the same process: a Merger must not carry state
+        # (offset lists, metadata dictionaries) from one merge to the next
+        try:
+            wdirs = []
+            for i, wp in enumerate(({'n_spikes': 3, 'times': [0, 1, 2], 'templates': [0, 2, 1],
+                                     'clusters': [6, 0, 6], 'n_templates': 3,
+                                     'tsv': {'cluster_KSLabel.tsv': {'field': 'KSLabel',
+                                                                     'values': {6: 'good'}}}},
+                                    {'n_spikes': 2, 'times': [1, 1], 'templates': [1, 0],
+                                     'n_templates': 2})):
+                wd = d / ('warm%d' % i)
+                dsgen.make_dataset(wd, probe_spec(wp, fill))
+                wdirs.append(wd)
+            wm = Merger(wdirs, d / 'warm_merged').merge()
+            wm.close()
+        except Exception:
+            pass      # a failing warm-up is not this case's business (the tuple sweeps cover it)
         truths, subdirs = [], []
         for i, p in enumerate(probes):
-            sd = d / ('probe%d' % i)
+            # directory names whose alphabetical order is the reverse of the given order
+            sd = d / ('probe_%s%d' % (chr(ord('z') - i), i))
             truths.append(dsgen.make_dataset(sd, probe_spec(p, fill)))
             subdirs.append(sd)
         before = [dsgen.sha1_dir(sd) for sd in subdirs]
